@@ -97,6 +97,9 @@ func (self *Transformer) Transform(tree ast.AnalyzedProgram) ast.AnalyzedProgram
 
 	output.Types = tree.Types
 	output.Imports = tree.Imports
+	// Singletons and their `impl` blocks are handed on unchanged (like the types): the functions refer to them.
+	output.Singletons = tree.Singletons
+	output.ImplBlocks = tree.ImplBlocks
 
 	for _, glob := range tree.Globals {
 		newGlob := ast.AnalyzedLetStatement{
